@@ -20,7 +20,7 @@ import re
 from ..extract import write_if_changed
 from ..lib.common import LEAN, REPO
 
-OPTIONAL = {"typeImport"}  # handlers that do not exist today; absence is not a problem
+OPTIONAL = set()  # handlers that may be absent without it being a problem (none today)
 
 
 # ----------------------------------------------------------------------------- small AST helpers
@@ -459,6 +459,16 @@ def generate(problems):
             act=(".raises " + r[len(".cls "):]) if r else None)
     else:
         missing("unionTry", "adapt_typehints Union handler")
+    float_try = None
+    if fn:
+        for t in sorted(_tries(fn), key=lambda t: t.lineno):
+            if ast.unparse(ast.Module(body=t.body, type_ignores=[])).strip() == "val = float(val)":
+                float_try = t
+                break
+    if float_try is not None:
+        put("floatConv", "_typehints.py", "adapt_typehints basic types handler around float(val)", float_try.handlers[0].type, float_try.handlers[0].body)
+    else:
+        missing("floatConv", "adapt_typehints basic types: handler around float(val)")
     if type_try is not None:
         put("typeImport", "_typehints.py", "adapt_typehints Type[..] handler around import_object", type_try.handlers[0].type, type_try.handlers[0].body)
     else:
@@ -671,7 +681,7 @@ def generate(problems):
     out.append("def handler : Wrapper → Handler")
     order = ["outer .parseArgs", "outer .parseObject", "outer .parseString", "outer .parseEnv", "outer .parsePath", "knownArgs", "pathOwn", "links",
              "getDefaults", "defaultPaths", "validate", "required", "lcpm", "checkValueKey", "envList", "checkType", "checkTypeLoad", "vocPath",
-             "anyLoad", "leafLoad", "annotated", "registered", "enumLookup", "typeImport", "unionTry", "subclassBranch", "callableBranch",
+             "anyLoad", "leafLoad", "annotated", "registered", "enumLookup", "typeImport", "floatConv", "unionTry", "subclassBranch", "callableBranch",
              "anyClasses", "dictKwargsLoad", "discard", "applyConfigPath", "applyConfigStr", "configLoad", "helpImport", "yamlLoad"]
     for w in order:
         refs, act, where = handlers.get(w, ([], ".same", "NOT EXTRACTED"))
